@@ -236,17 +236,7 @@ def main():
     c.cov["states"] = len(cases)
     c.cov["transitions"] = len(cases)
     bykey = {ekey(x["e"]): x for x in cases}
-    if not thorough:
-        # depth-1 expressions (every operator over every ordered pair of primitives) always; a seeded third of the deeper ones, with their mirror images
-        keep = {}
-        for x in cases:
-            e = x["e"]
-            deep = e["k"] == "bin" and (e["l"]["k"] != "field" and e["l"]["k"] != "lit" or e["r"]["k"] not in ("field", "lit")) or \
-                e["k"] == "neg" and e["e"]["k"] != "field"
-            k1, k2 = ekey(e), ekey(swap(e))
-            if not deep or (hash_int(min(k1, k2)) + c.seed) % 3 == 0:
-                keep[k1] = x
-        cases = list(keep.values())
+    # generation and evaluation of all ~9,600 expressions takes seconds, so both tiers run all of them
     cases.sort(key=lambda x: ekey(x["e"]))
     c.rng.shuffle(cases)
     for n, x in enumerate(cases):
